@@ -1,5 +1,6 @@
 import TdVerif.Sexp
 import TdVerif.Model.C01Coherence
+import TdVerif.Model.C01Lazy
 
 namespace TdVerif.Drive
 open TdVerif Sexp
@@ -115,6 +116,27 @@ def opOf : Sexp → Option Op
       pure (.update (← pathOf h) its)
   | _ => none
 
+def lzOf : Sexp → Option LZ
+  | .list [.atom "lz", sd, sn, .list ms] => do
+    let sname ← match sn with
+      | Sexp.atom "none" => some (none : Option String)
+      | Sexp.atom x => (unhex x).map some
+      | _ => none
+    pure { sd := (← asNat? sd), sname := sname, members := (← ms.mapM treeOf) }
+  | _ => none
+
+def lzTo (L : LZ) : Sexp :=
+  .list [.atom "lz", ofNat L.sd, (match L.sname with | none => .atom "none" | some x => .atom (tohex x)), .list (L.members.map treeTo)]
+
+def lopOf : Sexp → Option LOp
+  | .list [.atom "lset", k, .list sh, d] => do pure (.set (← pathOf k) (← nats? sh) (← asNat? d))
+  | .list [.atom "ldel", k] => do pure (.del (← pathOf k))
+  | .list [.atom "lrename", o, n] => do pure (.rename (← pathOf o) (← pathOf n))
+  | .list [.atom "lsetnames", ns] => do pure (.setNames (← namesOf ns))
+  | .list [.atom "lsetbatch", .list bs] => do pure (.setBatch (← nats? bs))
+  | .list [.atom "linsert", i, m] => do pure (.insert (← asNat? i) (← treeOf m))
+  | _ => none
+
 end C01D
 
 open C01D in
@@ -126,6 +148,11 @@ def handleC01 (cmd : String) (args : List Sexp) : Option Sexp :=
       let op ← opOf op
       let (t', out) := step t op
       pure (.list [treeTo t', outTo out])
+  | "c01.lstep", [l, op] => do
+      let L ← lzOf l
+      let op ← lopOf op
+      let (L', out) := lstep L op
+      pure (.list [lzTo L', outTo out])
   | _, _ => none
 
 end TdVerif.Drive
